@@ -105,6 +105,31 @@ func (g *Gen) tr(e CExpr, env *Env) (string, VType) {
 		case "-":
 			t, ty := g.tr(e.X, env)
 			return "(- " + t + ")", ty
+		case "&":
+			// address of a struct field whose address the program takes (paddr encoding)
+			f, ok := e.X.(*CField)
+			if !ok {
+				trFail("& of %s: only fields", cexprString(e.X))
+			}
+			x, xt := g.tr(f.X, env)
+			if xt.Go == nil {
+				trFail("& of field of %s", cexprString(f.X))
+			}
+			st := deref(xt.Go)
+			sT, ok := st.Underlying().(*types.Struct)
+			if !ok {
+				trFail("& of field of non-struct %s", cexprString(f.X))
+			}
+			for i := 0; i < sT.NumFields(); i++ {
+				if sT.Field(i).Name() == f.Name {
+					k, esc := g.eng.escapingField(st, i)
+					if !esc {
+						trFail("&%s: the program never takes this field's address", cexprString(e.X))
+					}
+					return fmt.Sprintf("(paddr %s %d)", x, k), VType{Go: types.NewPointer(sT.Field(i).Type())}
+				}
+			}
+			trFail("no field %s", f.Name)
 		case "*":
 			if id, ok := e.X.(*CIdent); ok {
 				if ev, ok := env.vars[id.Name]; ok && ev.loc != nil {
